@@ -200,3 +200,43 @@ def run(ctx, rep) -> None:
     t = norm(oc.node)
     ok = "s.deferred_choice_group == stage.deferred_choice_group" in t and "CancelStage(" in t and "if s.id == stage.id: continue" in t.replace("\n", " ")
     rep.check(ok, "C11.R5", "siblings = other stages of the same group", "CancelStage pushed for every other NOT_STARTED stage of the group", oc.file, oc.node.lineno, disc="sibling-filter")
+
+    # ---- R6: the fast path takes only a sibling that STARTED for the winner -------------------------------------------------------
+    # `_is_deferred_choice_claimed` = EXISTS sibling of the group: P(status, start_time set). The losers of a decided group end
+    # CANCELED and a branch disabled by its own condition ends SKIPPED - neither ever started (no start_time). If P holds for them,
+    # the only enabled branch cancels itself (zero winners) and a duplicate StartStage cancels the running winner.
+    from ..stagepred import eval_pred, exists_predicate
+    rep.rule("C11.R6", "_is_deferred_choice_claimed is true for a sibling exactly when that sibling has started (left NOT_STARTED with a start_time): never for a loser that was CANCELED / a branch that was SKIPPED without starting")
+    fc = None
+    for f_ in prog.all_functions():
+        if f_.qualname.endswith("._is_deferred_choice_claimed") and f_.module.name.startswith("stabilize.handlers.start_stage"):
+            fc = f_
+    if fc is None:
+        raise AnalysisError("_is_deferred_choice_claimed not found")
+    body = [s_ for s_ in fc.node.body if not (isinstance(s_, ast.Expr) and isinstance(s_.value, ast.Constant))]
+    # leading guard `if not stage.deferred_choice_group: return False` and the read of the stages are not part of the predicate
+    core = [s_ for s_ in body if isinstance(s_, (ast.For, ast.Return)) and not (isinstance(s_, ast.Return) and s_ is not body[-1])]
+    fake = ast.FunctionDef(name="p", args=fc.node.args, body=core, decorator_list=[], returns=None, type_comment=None, lineno=fc.node.lineno, col_offset=0)
+    ep = exists_predicate(fake)
+    if ep is None:
+        raise AnalysisError("_is_deferred_choice_claimed: not of the form `for s in stages: ... if P(s): return True ... return False`")
+    var, disj = ep
+    T = ctx.st
+    table = {}
+    for m in T.members:
+        for started in (True, False):
+            extra = {f"{var}.id == stage.id": False, f"{var}.deferred_choice_group == stage.deferred_choice_group": True, f"{var}.start_time is None": not started}
+            vals = [eval_pred(d, var, m, False, T, extra) for d in disj]
+            if any(v is True for v in vals):
+                table[(m, started)] = True
+            elif any(v is None for v in vals):
+                raise AnalysisError(f"_is_deferred_choice_claimed: `{[norm(d) for d, v in zip(disj, vals) if v is None][0]}` is not a predicate over (status, start_time set, same group, not self)")
+            else:
+                table[(m, started)] = False
+    never_started = [m for m in ("CANCELED", "SKIPPED", "NOT_STARTED") if table[(m, False)]]
+    rep.check(not never_started, "C11.R6", "a sibling that never started is not taken for the winner", "P(status, no start_time) is false for CANCELED / SKIPPED / NOT_STARTED" if not never_started else
+              f"P is true for a sibling in {never_started} without a start_time: the loser of a decided group (CANCELED) or a branch disabled by its own condition (SKIPPED) counts as 'already claimed' - the only enabled branch "
+              "cancels itself (zero winners), and a duplicate StartStage for the running winner cancels it", fc.file, fc.node.lineno, disc="claimed-needs-start")
+    started_missed = sorted(m for m in T.members if m != "NOT_STARTED" and not table[(m, True)])
+    rep.check(not started_missed, "C11.R6", "a sibling that started is recognised as the winner whatever its status is now", "P(status, start_time set) is true for every status but NOT_STARTED" if not started_missed else
+              f"P is false for a started sibling that is now {started_missed}: a second branch of the group may start", fc.file, fc.node.lineno, disc="claimed-started")
